@@ -108,6 +108,118 @@ func (x *Engine) instantiateAutos(pkgs []*packages.Package) {
 	}
 }
 
+// resolveGuards binds the "guarded G by M" declarations to the package variables.
+func (x *Engine) resolveGuards() {
+	x.guards = map[*ssa.Global]*guard{}
+	for _, gs := range x.db.Guards {
+		pkg := x.pkgByPath(gs.Pkg)
+		if pkg == nil {
+			panic(fmt.Sprintf("%s:%d: contract error: guarded: package %s not loaded", gs.File, gs.Line, gs.Pkg))
+		}
+		g, _ := pkg.Members[gs.Global].(*ssa.Global)
+		mu, _ := pkg.Members[gs.Mutex].(*ssa.Global)
+		if g == nil || mu == nil {
+			panic(fmt.Sprintf("%s:%d: contract error: guarded: %s or %s is not a package variable of %s", gs.File, gs.Line, gs.Global, gs.Mutex, gs.Pkg))
+		}
+		gd := &guard{g: g, mu: mu, props: gs.Props}
+		if gs.ReadersAlso != "" {
+			gd.alt, _ = pkg.Members[gs.ReadersAlso].(*ssa.Global)
+			if gd.alt == nil {
+				panic(fmt.Sprintf("%s:%d: contract error: guarded: %s is not a package variable", gs.File, gs.Line, gs.ReadersAlso))
+			}
+		}
+		x.guards[g] = gd
+	}
+	x.lockOrders = nil
+	for _, os := range x.db.Orders {
+		pkg := x.pkgByPath(os.Pkg)
+		if pkg == nil {
+			continue
+		}
+		a, _ := pkg.Members[os.Global].(*ssa.Global)
+		b, _ := pkg.Members[os.Mutex].(*ssa.Global)
+		if a == nil || b == nil {
+			panic(fmt.Sprintf("%s:%d: contract error: lockorder: unknown mutex variable", os.File, os.Line))
+		}
+		x.lockOrders = append(x.lockOrders, [2]*ssa.Global{a, b})
+		x.lockOrderProps = os.Props
+	}
+	// the mutex variables must never be reassigned outside package initialisation
+	for _, fn := range x.fnByKey {
+		if fn.Name() == "init" {
+			continue
+		}
+		for _, b := range fn.Blocks {
+			for _, in := range b.Instrs {
+				if st, ok := in.(*ssa.Store); ok {
+					if g, ok := st.Addr.(*ssa.Global); ok && x.isGuardMutex(g) {
+						panic(fmt.Sprintf("contract error: guarded: mutex variable %s is assigned in %s", g.Name(), fn))
+					}
+				}
+			}
+		}
+	}
+}
+
+// guardFuncs: the functions that must be verified for the lock discipline of prop — every named function of the
+// loaded packages that mentions a guarded variable (a helper that expects its caller to hold the lock needs an
+// explicit "requires{prop} wlockcount(mutex) > 0"). Function literals are covered through the function that runs them.
+func (x *Engine) guardFuncs(prop string, pkgs []*packages.Package) []string {
+	initial := map[string]bool{}
+	for _, p := range pkgs {
+		initial[p.PkgPath] = true
+	}
+	called := map[*ssa.Function]bool{}
+	for _, fn := range x.fnByKey {
+		for _, b := range fn.Blocks {
+			for _, in := range b.Instrs {
+				if c, ok := in.(ssa.CallInstruction); ok {
+					if cal := c.Common().StaticCallee(); cal != nil {
+						called[cal] = true
+					}
+				}
+			}
+		}
+	}
+	var out []string
+	for k, fn := range x.fnByKey {
+		if fn.Pkg == nil || !initial[fn.Pkg.Pkg.Path()] || fn.Parent() != nil || fn.Name() == "init" {
+			continue
+		}
+		touches := false
+		for _, b := range fn.Blocks {
+			for _, in := range b.Instrs {
+				for _, op := range in.Operands(nil) {
+					if op == nil || *op == nil {
+						continue
+					}
+					if g, ok := (*op).(*ssa.Global); ok {
+						if gd := x.guards[g]; gd != nil && hasProp(gd.props, prop) {
+							touches = true
+						}
+					}
+				}
+			}
+		}
+		if !touches {
+			continue
+		}
+		_ = called
+		out = append(out, k)
+	}
+	sort.Strings(out)
+	return out
+}
+
+func (x *Engine) guardProp(prop string) bool {
+	for _, gd := range x.guards {
+		if hasProp(gd.props, prop) {
+			return true
+		}
+	}
+	return false
+}
+
 func storesTo(fn *ssa.Function, v ssa.Value) bool {
 	for _, b := range fn.Blocks {
 		for _, in := range b.Instrs {
@@ -240,6 +352,13 @@ func (x *Engine) verifyFunc(fs *FuncSpec, cs *Clause, prop string) (rep *FuncRep
 	if cs != nil {
 		ev := &Eval{x: x, st: st, old: st, env: fr.env, pkg: pkg}
 		x.assume(st, x.safeEvalBool(ev, cs))
+	}
+	if len(x.guards) > 0 && pkg != nil && x.guardProp(prop) {
+		// the package's mutexes are unexported: a caller from outside holds none of them; a helper that expects
+		// one says so in a lock precondition (checked at its call sites, together with "the others are not held")
+		for _, t := range x.notHeldTerms(st, pkg, fs) {
+			x.assume(st, t)
+		}
 	}
 	for _, c := range fs.Wits {
 		ev := &Eval{x: x, st: st, old: st, env: fr.env, pkg: pkg}
